@@ -181,12 +181,14 @@ def gen_history(rng, route):
     if r < 0.34:
       steps.append({'k': 'suggest', 'count': rng.choice([1, 1, 2, 3, 5]), 'w': rng.choice(['w1', 'w2', 'w3'])})
     elif r < 0.62:
-      steps.append({'k': 'complete', 'pick': rng.random(), 'infeasible': rng.random() < 0.2})
+      steps.append({'k': 'complete', 'pick': rng.random(), 'infeasible': rng.random() < 0.2,
+                    'reason': rng.choice(['', 'x', ''])})
       if rng.random() < 0.25:
         # ... or the same completion arrives while another worker's suggest is inside the
         # algorithm, between two of its reads
         steps[-1] = {'k': 'suggest_race', 'count': rng.choice([1, 2, 3]), 'w': rng.choice(['w1', 'w2', 'w3']),
-                     'pick': steps[-1]['pick'], 'infeasible': steps[-1]['infeasible'], 'after': rng.choice([1, 1, 2])}
+                     'pick': steps[-1]['pick'], 'infeasible': steps[-1]['infeasible'], 'reason': steps[-1]['reason'],
+                     'after': rng.choice([1, 1, 2])}
     elif r < 0.72:
       steps.append({'k': 'add_completed', 'v': round(rng.uniform(0, 1), 3)})
     elif r < 0.78:
@@ -372,7 +374,7 @@ def run_service(ctx, index, route, steps):
         tid = pool[int(st['pick'] * len(pool)) % len(pool)]
         c = {'op': 'CompleteTrial', 'trial': f'{sname}/trials/{tid}', 'final': {'metrics': {'obj': 0.5}}}
         if st['infeasible']:
-          c = {'op': 'CompleteTrial', 'trial': f'{sname}/trials/{tid}', 'infeasible': True, 'reason': 'x'}
+          c = {'op': 'CompleteTrial', 'trial': f'{sname}/trials/{tid}', 'infeasible': True, 'reason': st.get('reason', 'x')}
         S.call_servicer(servicer, c)
     elif k == 'suggest_race':
       # a suggest that needs the algorithm (large count), raced by the completion of an
@@ -384,7 +386,7 @@ def run_service(ctx, index, route, steps):
         racing = pool[int(st['pick'] * len(pool)) % len(pool)]
         c = {'op': 'CompleteTrial', 'trial': f'{sname}/trials/{racing}', 'final': {'metrics': {'obj': 0.25}}}
         if st['infeasible']:
-          c = {'op': 'CompleteTrial', 'trial': f'{sname}/trials/{racing}', 'infeasible': True, 'reason': 'x'}
+          c = {'op': 'CompleteTrial', 'trial': f'{sname}/trials/{racing}', 'infeasible': True, 'reason': st.get('reason', 'x')}
         sv_now = servicer
         REC.race = {'after': st['after'], 'fire': (lambda c=c, sv_now=sv_now: S.call_servicer(sv_now, c)[0])}
       REC.race_log = []
@@ -483,7 +485,7 @@ def run_inram(ctx, index, route, steps):
       if pool:
         t = pool[int(st['pick'] * len(pool)) % len(pool)]
         if st['infeasible']:
-          t.complete(vz.Measurement(), infeasibility_reason='x')
+          t.complete(vz.Measurement(), infeasibility_reason=st.get('reason', 'x'))
         else:
           t.complete(vz.Measurement(metrics={'obj': 0.5}))
     elif k == 'add_completed':
